@@ -88,6 +88,9 @@ def cases(tier: str, seed: int) -> list[dict]:
         for kind, dim, et in [("elastic", 2, "TRI3"), ("elastic", 3, "TETRA4"), ("elastic", 2, "QUAD8"), ("thermal", 2, "TRI3"), ("beam", 2, "SEG2"), ("beam", 3, "SEG2"),
                               ("elastic-dyn", 2, "TRI3"), ("elastic-dyn", 2, "QUAD4"), ("thermal-dyn", 2, "TRI3")]:
             out.append({"kind": kind, "dim": dim, "et": et, "mesh": "gmsh", "state": "equilibrium"})
+        # a frame whose members are welded through a connection (Lagrange multipliers in the system): reactions at the clamp
+        for dim_, et_, th_ in ((2, "SEG2", "EB"), (3, "SEG3", "Timo")):
+            out.append({"kind": "frame", "dim": dim_, "et": et_, "mesh": "frame", "state": "frame-reaction", "theory": th_})
         for kind, dim, et in [("phasefield", 2, "TRI3"), ("phasefield", 2, "QUAD4"), ("phasefield", 3, "TETRA4"), ("elastic", 2, "TRI6"), ("elastic-dyn", 2, "TRI3"),
                               ("thermal-dyn", 2, "TRI3"), ("hyperelastic", 2, "TRI3")]:
             out.append({"kind": kind, "dim": dim, "et": et, "mesh": "gmsh", "state": "stored"})
@@ -325,6 +328,8 @@ def run_case(case: dict, ctx: Ctx) -> None:
     kind, dim, et = case["kind"], case["dim"], case["et"]
     key0 = f"C16/{kind}"
     ctx.default_key = key0
+    if case["state"] == "frame-reaction":
+        return run_frame_reaction(case, ctx, rng, key0)
     with ctx.monitored("no-exception", key0 + "/build/raised"):
         simu, info = build(case, rng)
     mesh = simu.mesh
@@ -778,6 +783,48 @@ def run_beam(case, ctx, rng, simu, info, P, U, names, seen):
 
 
 # ------------------------------------------------------------------------------------------
+def run_frame_reaction(case, ctx, rng, key0):
+    """L-shaped frame of two members welded by `add_connection_fixed` (the assembled matrices carry multiplier rows), clamped at
+    one end, loaded at the other: `Calc_Reaction` at the clamp and the nodal-force results balance the tip load (forces, and the
+    moment about the clamp)."""
+    from EasyFEA import ElemType, Mesher
+    from EasyFEA.Geoms import Line, Point
+    from . import _beam_common as bcm
+
+    dim, et, theory = case["dim"], case["et"], case["theory"]
+    L1, L2 = float(rng.uniform(1, 2)), float(rng.uniform(1, 2))
+    with ctx.monitored("no-exception", key0 + "/build/raised"):
+        with quiet():
+            l1 = Line(Point(0, 0), Point(L1, 0), L1 / 3)
+            l2 = Line(Point(L1, 0), Point(L1, L2), L2 / 3)
+            beams = [Models.Beam.Isotropic(dim, l, bcm.rect_section(0.1, 0.2), 1e4, 0.3) for l in (l1, l2)]
+            mesh = Mesher().Mesh_Beams(beams, elemType=ElemType(et))
+            simu = Simulations.Beam(mesh, Models.Beam.BeamStructure(beams), useTimoshenko=(theory == "Timo"))
+            mesh = simu.mesh
+            clamp, corner, tip = (mesh.Nodes_Point(Point(*p)) for p in ((0, 0), (L1, 0), (L1, L2)))
+            un = simu.Get_unknowns()
+            simu.add_dirichlet(clamp, [0.0] * len(un), un)
+            simu.add_connection_fixed(corner)
+            F = rng.uniform(-2, 2, dim)
+            names = ["x", "y", "z"][:dim]
+            simu.add_neumann(tip, [float(x) for x in F], names)
+            simu.Solve()
+    dof_n = len(un)
+    with ctx.monitored("no-exception", key0 + "/Calc_Reaction-with-connection/raised"):
+        with quiet():
+            dofs0 = simu.Bc_dofs_nodes(clamp, un)
+            R = np.asarray(simu.Calc_Reaction(dofs0), float).reshape(len(clamp), dof_n).sum(axis=0)
+        ctx.check("reaction", float(np.abs(R[:dim] + F).max()) / np.abs(F).max(), 1e-8, key0 + "/balance/force")
+        # moment about the clamp (z component): the tip sits at (L1, L2)
+        mz = L1 * F[1] - L2 * F[0]
+        ctx.check("reaction", abs(R[un.index("rz")] + mz) / max(abs(mz), 1e-300), 1e-8, key0 + "/balance/moment")
+    with ctx.monitored("no-exception", key0 + "/nodal-forces/raised"):
+        with quiet():
+            fx, fy = (np.asarray(simu.Result(n, True), float) for n in ("fx", "fy"))
+        ctx.check("reaction", max(abs(fx[clamp].sum() + F[0]), abs(fy[clamp].sum() + F[1])) / np.abs(F).max(), 1e-8, key0 + "/balance/nodal-force-results")
+    ctx.describe(f"frame/{dim}D/{et}/{theory}/reaction", True, kind="frame", et=et, theory=theory, n_lagrange=len(simu.Bc_Lagrange))
+
+
 def run_equilibrium(case, ctx, rng, simu, info, key0):
     """Fully constrained boundary + loads elsewhere: the reactions balance the applied loads."""
     base, dim = info["base"], info["dim"]
